@@ -140,6 +140,22 @@ def run_case(ctx, g, rng):
         call(api.write_tsv, c, str(p), header=("curie_prefix", "uri_prefix"))
     probe.note_key(f"tsv:{tag}", bool(ft))
     S.counters["wl:tsv"] += 1
+    # every writer once more on the same converter object, in another order: writing is reading - the second file
+    # must read back like the first
+    again = [("epm", None, None), ("shacl", False, None), ("shacl", True, None), ("tsv", None, None)]
+    if not any(p.startswith("@") for r in recs for p in spec.all_p(r)):
+        again += [("jsonld", syn, exp) for syn in (False, True) for exp in (False, True)] + [("jsonld", True, True)]
+    rng.shuffle(again)
+    for kind, syn, exp in again:
+        if kind == "epm":
+            call(api.write_extended_prefix_map, c, tmp / "e2.json")
+        elif kind == "shacl":
+            call(api.write_shacl, c, tmp / "s2.ttl", include_synonyms=syn)
+        elif kind == "tsv":
+            call(api.write_tsv, c, tmp / "t2.tsv")
+        else:
+            call(api.write_jsonld_context, c, tmp / "j2.json", include_synonyms=syn, expand=exp)
+        S.counters["wl:repeated-writes"] += 1
     if g % 97 == 0:
         probe.sample({"records": [spec.rec_dict(r) for r in recs], "features": sorted(ft),
                       "shacl_file": (tmp / "s.ttl").read_text()[:600] if (tmp / "s.ttl").exists() else None})
